@@ -42,22 +42,29 @@ def subst(cfg, **repl):
 _scratch = []
 
 
+# the deviation constants as the configs in spec/cfg carry them (= the current tree): F-C16-seedwipe has been repaired,
+# F-C16-shortlived is open
+CFG_DEFAULT = dict(RefetchOnSeedChange="TRUE", SupersedeMustOutlive="FALSE")
+
+
 def fixed_from_env():
     fixed = os.environ.get("VERIF_C16_FIXED", "")
-    return dict(RefetchOnSeedChange="TRUE" if "seedwipe" in fixed else "FALSE",
+    unfixed = os.environ.get("VERIF_C16_UNFIXED", "")
+    return dict(RefetchOnSeedChange="FALSE" if "seedwipe" in unfixed else "TRUE",
                 SupersedeMustOutlive="TRUE" if "shortlived" in fixed else "FALSE")
 
 
 def variant(cfg, repl=None):
-    """The descriptive configs mirror the CURRENT tree (both deviations present). After a fix: commit the deviation constant
-    has to be switched in Discovery.gen*.cfg / sim / trace; VERIF_C16_FIXED=seedwipe,shortlived does the same for an experiment,
-    and trace validation tries the other variants by itself before it reports drift."""
+    """The descriptive configs mirror the CURRENT tree (seedwipe repaired, shortlived present). After a fix: commit the deviation
+    constant has to be switched in Discovery.gen*.cfg / sim / trace; VERIF_C16_FIXED=shortlived does the same for an experiment
+    (VERIF_C16_UNFIXED=seedwipe: the model of the tree before that repair), and trace validation tries the other variants by
+    itself before it reports drift."""
     repl = repl or fixed_from_env()
-    if all(v == "FALSE" for v in repl.values()):
+    if repl == CFG_DEFAULT:
         return cfg
     if not _scratch:
         _scratch.append(vlib.scratch("c16cfg"))
-    path = os.path.join(_scratch[0], "-".join(k for k, v in sorted(repl.items()) if v == "TRUE") + "." + cfg)
+    path = os.path.join(_scratch[0], "-".join("%s=%s" % (k, v) for k, v in sorted(repl.items())) + "." + cfg)
     with open(path, "w") as fh:
         fh.write(subst(cfg, **repl))
     return path      # absolute: os.path.join(SPEC, "cfg", path) == path
@@ -194,7 +201,7 @@ def vacuity(models):
     """Every invariant can fail: switching one design decision off must make TLC report exactly that property."""
     base = "Discovery.safety.quick.cfg"
     cases = [
-        ("Converged", dict(RefetchOnSeedChange="FALSE"), "the stale response applied after a seed wipe (code as it is)"),
+        ("Converged", dict(RefetchOnSeedChange="FALSE"), "the stale response applied after a seed wipe (F-C16-seedwipe, repaired)"),
         ("Converged", dict(SupersedeMustOutlive="FALSE"), "a shorter-lived presentation replaces a longer-lived one (code as it is)"),
         ("Converged", dict(ReadTsFirst="FALSE"), "get reading the rows before the timestamp"),
         ("OneLiveEntryPerSubject", dict(DeletePrevious="FALSE"), "add() not deleting the previous presentations"),
@@ -215,11 +222,11 @@ def vacuity(models):
         return dict(expect_violated=want, variant=repl, got=r.violation)
     with ThreadPoolExecutor(max_workers=4) as ex:
         res = list(ex.map(one, cases))
-    # liveness must fail on the descriptive model
+    # liveness must fail on the model of the tree before the repair of F-C16-seedwipe
     r = vlib.tlc("MCDiscovery", "Discovery.live.quick.cfg", workers=2, timeout=900,
                  files={"run.cfg": subst("Discovery.live.quick.cfg", RefetchOnSeedChange="FALSE", MaxEvents="4")})
     if not (r.violation or "Temporal" in (r.error or "")):
-        raise Inconclusive("vacuity guard: Converges should fail on the descriptive model: %s %s" % (r.violation, r.error))
+        raise Inconclusive("vacuity guard: Converges should fail without RefetchOnSeedChange: %s %s" % (r.violation, r.error))
     res.append(dict(expect_violated="Converges", variant=dict(RefetchOnSeedChange="FALSE"), got="temporal"))
     models.append(dict(vacuity_guards=res))
 
@@ -391,7 +398,7 @@ def run(prop, tier, seed, replay=None):
                     acc, rej, tcfg, best = a2, r2, variant("Discovery.trace.cfg", alt), alt
         if len(rej) <= probe // 4:
             rep.notes.append("NOTE: the recorded traces are behaviours of the specification with %s (not of the configured "
-                             "descriptive variant): a deviation has been repaired in the code, switch the constant in "
+                             "descriptive variant): a deviation has been repaired in the code (or a repaired one is back), switch the constant in "
                              "spec/cfg/Discovery.{gen,gen.quick,sim,trace}.cfg" % json.dumps(best))
     if len(rej) <= probe // 4:
         a2, r2 = vlib.validate_traces("TraceDiscovery", tcfg, traces[probe:], timeout=1500)
